@@ -21,6 +21,9 @@ RULE = ("Profile 'sweep' (exhaustive): every documented key x every in-range, bo
         "the classes the statement lists - non-positive/inconsistent radii, npt<n+1, maxfun<=0, too-narrow / zero-width / "
         "inverted bounds with and without scaling, h without prox or lh, lh<=0, out-of-range and "
         "wrongly typed parameter values, the documented contradictory option pairs. (c) unknown parameter name. "
+        "Profile 'omnibus' (sampled): the documented-domain scenarios of the other solve-level checks (n<=4; starts on/outside bounds, "
+        "scaling, averaging, noise, soft/hard restarts with npt growth, growing variants, regression steps, regularisers, tiny "
+        "budgets), judged by the 'valid' clauses only. "
         "Non-trivial = class (b)/(c), or a boundary value, or a valid run ending on a non-success flag. "
         "Non-termination is decided deterministically (20000 main-loop iterations without an evaluation).")
 ASSUMPTIONS = ["the validity oracle is the harness's own re-statement of the documented rules plus the snapshot "
@@ -621,7 +624,25 @@ def sweep_cases(tier):
     return out
 
 
+# Omnibus profile: the documented-domain scenarios that the *other* solve-level properties generate (bounds geometry with starts on /
+# outside bounds, scaling, averaging, noise, soft/hard restarts with npt growth, growing variants, regression steps, regularisers,
+# tiny budgets, zero-residual problems). Those checks only count an exception; here it is judged (C07.returns / C07.valid_accepted).
+OMNI_PROFS = [sc.make_prof(reg=0.1, zero_resid=0.1, diag=0.5),
+              sc.make_prof(bounds=["box", "box", "lower", "upper", "mixed", "scaled", "scaled"], reg=0.1, zero_resid=0.05, regression_bias=0.12,
+                           opts_list=[0, 0, 0, 0, 0, 1, 1, 2, 3, 4, 5, 6, 7, 8, 9, 12, 13]),
+              sc.make_prof(fams=["lin", "sinlin", "rosen", "hashed", "hashed", "script"], diag=1.0, reg=0.06, zero_resid=0.05,
+                           maxfuns=["npt+1", 10, 30, 60, 150, 150]),
+              sc.make_prof(maxfuns=[1, 2, 3, "npt-1", "npt", "npt+1", 10, 30, 60, 150, 5, 7, 20, 45, 90], diag=0.2, avg_prob=0.45)]
+
+
+@st.composite
+def omni_cases(draw):
+    base = draw(sc.scenarios(draw(st.sampled_from(OMNI_PROFS))))
+    return {"base": base, "cls": "valid", "mut": {}, "tags": ["omnibus"] + list(base["tags"])}
+
+
 PROFILES = {"args": Profile("args", cases, run, quick=4000, thorough=100000, timeout=120),
+            "omnibus": Profile("omnibus", omni_cases, run, quick=5000, thorough=150000, timeout=120),
             "sweep": Profile("sweep", None, run, quick=0, thorough=0, timeout=120, enumerate=sweep_cases)}
 
 
